@@ -652,7 +652,7 @@ class Fxp():
 
         """
 
-        x = self.copy()
+        x = self.deepcopy()     # (its own configuration, status record and values, as the docstring says)
         x.val = x.val.flatten(order)
         return x
 
@@ -1963,7 +1963,7 @@ class Fxp():
 
     @property
     def T(self):
-        x = self.copy()
+        x = self.deepcopy()     # (a shallow copy shares the configuration, the status record and the value buffer)
         x.val = x.val.T
         return x    
     
